@@ -137,6 +137,58 @@ def real_cases(seed, n):
         yield core.Case(cid, [scn], {"real": True, "plugin": plugin, "names": names, "pids": info})
 
 
+def restart_cases(seed, n):
+    """a ruleset-level cgroup whose action does not take a `cgroup` argument at all (systemd_restart): every instance must still be
+    a working instance - its chain runs, and the restart asks for the configured service"""
+    from vlib import killgen as KG
+    rng = random.Random(seed * 1000003 + 112)
+    for i in range(n):
+        names = rng.sample(["a", "b", "svc", "svc1", "db"], rng.randint(1, 3))
+        cgs = {"/": W.root_cgroup(), "wl": W.cgroup()}
+        for nm in names:
+            cgs["wl/" + nm] = W.cgroup(current=1 << 20, pids=[])
+        svc = rng.choice(["foo.service", "bar@1.service", "x.slice"])
+        args = {"service": svc}
+        if rng.random() < 0.5:
+            args["post_action_delay"] = str(rng.choice([0, 1]))
+        if rng.random() < 0.3:
+            args["dry"] = "false"
+        cfg = {"rulesets": [{"name": "rc", "cgroup": "wl/*", "post_action_delay": "0", "detectors": [["g", W.det("d")]],
+                             "actions": [W.act("pre"), {"name": "systemd_restart", "args": args}, W.act("post")]}]}
+        cid = "C11s-%d-%d" % (seed, i)
+        scn = KG.base_scn(cid, cgs, cfg, ticks=[{"step_ns": 2 * 10**9} for _ in range(3)])
+        scn["dbus"] = "ok"
+        yield core.Case(cid, [scn], {"restart": True, "names": names, "service": svc})
+
+
+def judge_restart(case, results):
+    v = core.Verdict()
+    res, m = results[0], case.meta
+    cr = core.classify_crash(res) if res.crashed else core.exception_outcome(res)
+    if cr:
+        v.bad("crash:" + cr[0], cr[1], cr[2])
+        return v
+    _, ticks = engine.split_ticks(res.events)
+    calls = 0
+    for ti, evs in enumerate(ticks[:1]):
+        seen = sorted(e.get("rcg") for e in evs if e.get("ev") == "plugin" and e["m"] == "run" and e["id"] == "pre")
+        want = sorted("wl/" + n for n in m["names"])
+        if seen != want:
+            v.bad("live-set", "restart-action", "tick %d: chains ran for %s, matching cgroups %s (the action takes no cgroup argument)" % (ti, seen, want))
+        for e in evs:
+            if e.get("ev") == "sd_bus_call_method":
+                calls += 1
+                if e["member"] != "RestartUnit" or e["args"][:1] != [m["service"]]:
+                    v.bad("action-lost-its-arguments", "systemd_restart", "tick %d: an instance of the ruleset asked systemd for %s%s, configured service %r" % (ti, e["member"], e["args"], m["service"]))
+        if seen == want and calls != len(want):
+            v.bad("action-lost-its-arguments", "systemd_restart:no-call", "tick %d: %d instances ran their chain, %d RestartUnit calls" % (ti, len(want), calls))
+    v.count("restart_action_cases")
+    v.count("restart_calls", calls)
+    v.nontrivial = calls > 0
+    v.sig = core.scn_hash(case.scns[0])
+    return v
+
+
 def judge_real(case, results):
     v = core.Verdict()
     res, scn = results[0], case.scns[0]
@@ -217,11 +269,14 @@ _cases_scripted = cases
 def cases(seed, tier):
     yield from _cases_scripted(seed, tier)
     yield from real_cases(seed, 300 if tier == "quick" else 2500)
+    yield from restart_cases(seed, 60 if tier == "quick" else 500)
 
 
 def judge(case, results):
     if case.meta.get("real"):
         return judge_real(case, results)
+    if case.meta.get("restart"):
+        return judge_restart(case, results)
     scn = case.scns[0]
     res = results[0]
     v = core.Verdict()
@@ -250,6 +305,8 @@ def judge(case, results):
 
 def sample(case, v):
     s = case.scns[0]
+    if case.meta.get("restart"):
+        return {"case": case.id, "restart_action": case.meta, "observed": v.stats}
     if case.meta.get("real"):
         return {"case": case.id, "real_kill_action": case.meta["plugin"], "cgroups": case.meta["names"], "observed": v.stats}
     return {"case": case.id, "ruleset_cgroup": case.meta, "initial_cgroups": sorted(s["cgroups"].keys()),
